@@ -502,17 +502,19 @@ def pull_part(ctx, n, ops, big_every):
     info, files, res = go(out)
     ctx.cov["traces_validated_against_impl"] += info["traces"]
     ctx.cov["schedules_executed"] += info["traces"]
-    stats = {"idempotent": 0, "conflict409": 0, "grpc": 0, "big_dequeues": 0}
+    stats = {"idempotent": 0, "conflict409": 0, "grpc": 0, "big_dequeues": 0, "store_faults": 0}
     for f in files:
         for e in vf.load_trace(f):
             if e["ev"] == "PullLease":
                 stats["conflict409"] += 1 if e["r"]["status"] == 409 else 0
                 stats["grpc"] += 1 if e["a"]["transport"] == "grpc" else 0
+            if e["ev"] == "PullFault":
+                stats["store_faults"] += 1
             if e["ev"] == "PullDequeue" and len(e["r"]["items"]) >= 100:
                 stats["big_dequeues"] += 1
     for k, v in stats.items():
         ctx.count("pull_" + k, v)
-    if stats["conflict409"] == 0 or stats["grpc"] == 0:
+    if stats["conflict409"] == 0 or stats["grpc"] == 0 or stats["store_faults"] == 0:
         raise vf.Infra("vacuous pull-API run: %s" % stats)
     first = sigs(res)
     if first:
